@@ -7,12 +7,12 @@ import z3
 from sx import core as S, env as E, pl, plh, families as F, cfg, npshim, ffi, mat
 
 PROPERTY = "C17"
-REGIONS = ["plog-model", "configurator", "after-queries", "integer-leaf", "explicit-sign", "generated-id", "cc-default", "subclass-leaf",
+REGIONS = ["plog-model", "configurator", "after-queries", "after-packing-sibling-objects", "integer-leaf", "explicit-sign", "generated-id", "cc-default", "subclass-leaf",
            "polyhedron-config", "polyhedron-default-prio-given", "polyhedron-default-prio-omitted", "polyhedron-variables-given",
            "polyhedron-index-given", "polyhedron-select"]
 BOUNDS = ("PL family skeletons (<=7 compounds) with symbolic thresholds (|v|<=2^20), symbolic explicit signs, symbolic integer-leaf boxes in "
           "[-32768,32767] and symbolic in-box leaf values; CFG family configurators (concrete, with defaults and priorities), packed fresh and after a "
-          "prefix of queries; ge_polyhedron_config objects built directly from <=8 symbolic entries (|e|<=2^20), symbolic variable boxes, a symbolic "
+          "prefix of queries; ge_polyhedron_config objects built directly from <=8 symbolic entries (|e|<=2^31), symbolic variable boxes, a symbolic "
           "or omitted default priority vector, given or generated variables / row index. pickle, gzip and base64 run for real on the object graph "
           "(M11: a symbolic integer travels through pickle as an opaque token)")
 OUTSIDE = ("larger models; floats; strings produced by another version of the library or another Python; select() with the built-in solver is "
@@ -45,8 +45,11 @@ def instantiations(tier, seed):
         if k % 4 == 3:
             m = F.with_subclass_leaves(m)
         out.append({"part": "plog", "model": m, "kind_": "plog", "warm": k % 2 == 1})
+        if k % 2 == 0 or tier == "thorough":
+            out.append({"part": "plog", "model": m, "kind_": "plog", "warm": False, "siblings": True})
     for k, c in enumerate(cfg.cfg_family(tier, seed, n_quick=6, n_thorough=100)):
         out.append({"part": "plog", "model": c, "kind_": "cfg", "warm": k % 2 == 0})
+        out.append({"part": "plog", "model": c, "kind_": "cfg", "warm": False, "siblings": True})
         c2 = copy.deepcopy(c)
         for nd in pl.compounds(c2):
             if nd["t"] in ("cAny", "cXor") and rng.random() < 0.5:
@@ -61,11 +64,36 @@ def instantiations(tier, seed):
             mats.append(A_)
     for k, A in enumerate(mats):
         out.append({"part": "poly", "shape": [len(A), len(A[0])], "prio": ["sym", "omitted", "zeros"][k % 3], "vars": ["given", "generated"][k % 2],
-                    "index": ["given", "generated", "ints"][(k // 2) % 3], "select": k % 3 != 0, "warm": k % 4 == 1})
+                    "index": ["given", "generated", "ints"][(k // 2) % 3], "select": k % 3 != 0, "warm": k % 4 == 1, "edge": [7, 15, 31][k % 3]})
     base = F.symbolize(F.AL(2, F.a(), F.i(), F.AL(1, F.b(), F.c(), id="B", sign=1), id="A", sign=1))
     for mu in ("value_off", "bounds_off"):
         out.append({"kind": "mutant", "mutant": mu, "part": "plog", "model": base, "kind_": "plog", "warm": False})
     out.append({"kind": "mutant", "mutant": "entry_off", "part": "poly", "shape": [1, 3], "prio": "sym", "vars": "given", "index": "given", "select": False, "warm": False})
+    return out
+
+
+def _siblings(ns, spec):
+    """objects that compare equal (==, hash) to the model, or nearly so, but differ in something the comparison ignores: a longer default list,
+    an explicit id equal to the generated one, a nested threshold moved between -1 and -2; packed BEFORE the model in the same interpreter"""
+    from sx import poly
+    out = []
+    s1 = copy.deepcopy(spec)
+    changed = False
+    for nd in pl.compounds(s1):
+        if nd["t"] in ("cAny", "cXor") and nd.get("default"):
+            other = [c["id"] for c in nd["ch"] if c.get("id") and c["id"] not in nd["default"]]
+            if other:
+                nd["default"] = list(nd["default"]) + other[:1]
+                changed = True
+    if changed:
+        out.append(s1)
+    try:
+        rep = pl.build(ns, spec, plh.mid_env(spec))
+        if spec["t"] != "var" and not spec.get("id") and rep.generated_id and not pl.params(spec):
+            out.append(dict(copy.deepcopy(spec), id=rep.id))
+    except Exception:   # noqa
+        pass
+    out.extend(poly.siblings(spec, limit=3))
     return out
 
 
@@ -108,6 +136,10 @@ def run_inst(spec, run):
     ns = E.load_repo()
     if spec["part"] == "poly":
         return _poly(ns, spec, run)
+    if spec.get("siblings"):
+        spec["before"] = _siblings(ns, spec["model"])
+        if not spec["before"]:
+            return run.skipped("no sibling object to pack first")
     mu = spec.get("mutant")
     model_spec = spec["model"]
     iscfg = spec["kind_"] == "cfg"
@@ -127,8 +159,11 @@ def run_inst(spec, run):
         ref = pl.obj_sem(ns, m0, zvals)
         m1 = pl.build(ns, model_spec, env)
         err = s = m2 = val = r0 = r2 = None
-        stage = "queries before packing"
+        stage = "packing sibling objects first"
         try:
+            for sb in spec.get("before", []):
+                pl.build(ns, sb, env).to_b64()
+            stage = "queries before packing"
             if spec.get("warm"):
                 plh.warm(ns, m1)
                 if iscfg:
@@ -155,6 +190,8 @@ def run_inst(spec, run):
         run.region("configurator" if iscfg else "plog-model")
         if spec.get("warm"):
             run.region("after-queries")
+        if spec.get("before"):
+            run.region("after-packing-sibling-objects")
         for c in pl.compounds(model_spec):
             if c["t"] in ("cAny", "cXor") and c.get("default"):
                 run.region("cc-default")
@@ -213,6 +250,12 @@ def run_inst(spec, run):
 
 # ----------------------------------------------------------------------------------------------------------------------------------
 
+def _edge(ent, k):
+    """z3 Bool: the largest magnitude in the matrix is exactly 2^k and occurs with a positive sign (where a narrower integer type would wrap)"""
+    flat = [e.e for row in ent for e in row]
+    return z3.Or([z3.And([x == 2 ** k] + [z3.And(y < 2 ** k, y > -(2 ** k)) for y in flat if y is not x]) for x in flat])
+
+
 def _poly(ns, spec, run):
     mu = spec.get("mutant")
     pnd, puan = ns.pnd, ns.puan
@@ -221,7 +264,7 @@ def _poly(ns, spec, run):
     ffi.install(pnd)
     try:
         def fn(ctx):
-            ent = [[ctx.int("e_%d_%d" % (i, j), -2 ** 20, 2 ** 20) for j in range(c)] for i in range(r)]
+            ent = [[ctx.int("e_%d_%d" % (i, j), -2 ** 31, 2 ** 31) for j in range(c)] for i in range(r)]
             kw = {}
             bx = []
             if spec["vars"] == "given":
@@ -333,7 +376,7 @@ def _poly(ns, spec, run):
                     run.obligation(ctx, "select-identical", z3.Or(sel) if sel else z3.BoolVal(False), conc)
             run.validate(ctx, conc, lambda m: {"entries": [[S.model_int(m, P2[i, j]) for j in range(c)] for i in range(r)],
                                                "prio": [S.model_int(m, x) for x in db]},
-                         extremes=z3.Or([e.e == 2 ** 20 for row in d["ent"] for e in row]))
+                         extremes=_edge(d["ent"], spec.get("edge", 7)))
             run.sample({"shape": [r, c], "prio": spec["prio"], "vars": spec["vars"], "index": spec["index"], "b64_chars": len(d["s"])})
 
         st = S.explore(fn, on_path, max_paths=20000, wall=1200)
